@@ -166,6 +166,8 @@ template<typename A>
 HllArray<A>* HllArray<A>::newHll(std::istream& is, const A& allocator) {
   uint8_t listHeader[8];
   read(is, listHeader, 8 * sizeof(uint8_t));
+  if (!is.good())
+    throw std::runtime_error("error reading from std::istream");
 
   if (listHeader[hll_constants::PREAMBLE_INTS_BYTE] != hll_constants::HLL_PREINTS) {
     throw std::invalid_argument("Incorrect number of preInts in input stream");
@@ -208,6 +210,8 @@ HllArray<A>* HllArray<A>::newHll(std::istream& is, const A& allocator) {
 
   const auto numAtCurMin = read<uint32_t>(is);
   const auto auxCount = read<uint32_t>(is);
+  if (!is.good())
+    throw std::runtime_error("error reading from std::istream");
   if (numAtCurMin > (1u << lgK)) {
     throw std::invalid_argument("Invalid numAtCurMin in HLL sketch image: " + std::to_string(numAtCurMin));
   }
